@@ -44,6 +44,16 @@ def make_library(rng, nk, float_share=0.25):
             continue     # every input and every intermediate value is used (unused block arguments are erased by the encoder)
         seen.add(key)
         lib.append((nin, ty, ops, ("t", nops - 1)))
+        # its twin with the operands of one operation exchanged: the same operations, another routing
+        if len(lib) < nk and len(lib) <= 4:
+            j = rng.randrange(nops)
+            op, a, b = ops[j]
+            tw = list(ops)
+            tw[j] = (op, b, a)
+            tkey = (nin, ty, tuple(tw))
+            if a != b and tkey not in seen:
+                seen.add(tkey)
+                lib.append((nin, ty, tw, ("t", nops - 1)))
     return lib
 
 
